@@ -30,6 +30,8 @@ def run(prog, R, tier="quick", only_rule=None):
     # never an unopenable directory: `current` must not end up naming a version file the version GC has unlinked
     from rules.props import c04
     c04.c04g(prog, R, rid="C05.g")
+    from rules.props import c16
+    c16.c16e(prog, R, rid="C05.h")
 
 
 def dirsync_set(prog):
